@@ -347,6 +347,34 @@ pub fn fonts() -> &'static Vec<FontEntry> {
                 }
             }
         }
+        // fonts with SEVERAL image tables (the filter then decides which table answers): a base fixture with
+        // the image tables of other fixtures added
+        {
+            use crate::fontgen::sfnt::{build_sfnt, find_table};
+            use crate::props::c01::faults::sfnt_tables;
+            let combos: &[(&str, &str, &[(&str, &[u8; 4])])] = &[
+                ("generated:images-sbix+svg", "fonts/sbix/sbix-dupe.ttf", &[("fonts/svg/gzipped.ttf", b"SVG ")]),
+                ("generated:images-sbix+svg+ebdt", "fonts/sbix/sbix-dupe.ttf", &[("fonts/svg/gzipped.ttf", b"SVG "), ("fonts/opentype/TerminusTTF-4.47.0.ttf", b"EBLC"), ("fonts/opentype/TerminusTTF-4.47.0.ttf", b"EBDT")]),
+                ("generated:images-ebdt+svg", "fonts/opentype/TerminusTTF-4.47.0.ttf", &[("fonts/svg/gzipped.ttf", b"SVG ")]),
+                ("generated:images-svg+ebdt", "fonts/svg/gzipped.ttf", &[("fonts/opentype/TerminusTTF-4.47.0.ttf", b"EBLC"), ("fonts/opentype/TerminusTTF-4.47.0.ttf", b"EBDT")]),
+            ];
+            for (name, base, adds) in combos {
+                let made = (|| -> Option<Vec<u8>> {
+                    let (flavour, mut tabs) = sfnt_tables(&fixtures::read(base)?)?;
+                    for (src, t) in adds.iter() {
+                        let data = find_table(&fixtures::read(src)?, t)?.to_vec();
+                        tabs.retain(|(x, _)| x != *t);
+                        tabs.push((**t, data));
+                    }
+                    Some(build_sfnt(flavour, &tabs))
+                })();
+                if let Some(bytes) = made {
+                    if let Some(e) = make_entry(name, bytes, &[tag::LATN], 4, "images", None) {
+                        v.push(e);
+                    }
+                }
+            }
+        }
         v
     })
 }
